@@ -208,6 +208,8 @@ type Sched struct {
 	shadow  map[unsafe.Pointer]*shadowLoc
 	diverge string
 	spins   int
+	lastAdvance int
+	spinFair    bool
 	quiet   bool
 }
 
@@ -222,11 +224,15 @@ type Config struct {
 	TrackFP    bool
 	NoRace     bool
 	TraceSteps bool // record a step trace into the log (replay mode)
+	SpinLimit  int  // visible operations at one virtual instant after which the spin rule advances the clock
 }
 
 func (c *Config) defaults() {
 	if c.MaxSteps == 0 {
 		c.MaxSteps = 200000
+	}
+	if c.SpinLimit == 0 {
+		c.SpinLimit = 50000
 	}
 	if c.Horizon == 0 {
 		c.Horizon = 3600 * time.Second
@@ -577,6 +583,18 @@ func (s *Sched) pick() *G {
 			if !s.advance() {
 				return nil
 			}
+			s.lastAdvance = s.steps
+			continue
+		}
+		if s.steps-s.lastAdvance > s.cfg.SpinLimit {
+			// Spin rule: some goroutine keeps performing visible operations without ever blocking
+			// (e.g. receiving from a closed channel in a loop), so the clock would never advance.
+			// Real time does pass while it spins: jump to the earliest deadline and fire what is due.
+			s.lastAdvance = s.steps
+			if !s.spinAdvance() {
+				s.reason = "livelock"
+				return nil
+			}
 			continue
 		}
 		idx := 0
@@ -620,6 +638,50 @@ func (s *Sched) choice(n int, kind uint8, preempt bool) int {
 	}
 	s.points = append(s.points, Point{N: n, Chosen: c, Kind: kind, Preempt: preempt})
 	return c
+}
+
+
+// BusySpin is logged when the spin rule had to advance the clock.
+type BusySpin struct{ Site string }
+
+func (b BusySpin) String() string { return "BUSY-SPIN " + b.Site }
+
+// spinAdvance jumps to the earliest deadline and fires every timer due then, in deadline order.
+func (s *Sched) spinAdvance() bool {
+	var min Duration = -1
+	for _, t := range s.timers {
+		if t.active && (min < 0 || t.when < min) {
+			min = t.when
+		}
+	}
+	if min < 0 || min > s.cfg.Horizon {
+		return false
+	}
+	site := "?"
+	if s.cur != nil {
+		site = s.cur.Site
+	}
+	s.log = append(s.log, Event{s.now, -1, site, BusySpin{site}})
+	s.spinFair = true
+	if min > s.now {
+		s.now = min
+	}
+	for {
+		var next *Timer
+		for _, t := range s.timers {
+			if t.active && t.when <= s.now && (next == nil || t.when < next.when || (t.when == next.when && t.id < next.id)) {
+				next = t
+			}
+		}
+		if next == nil {
+			break
+		}
+		s.fire(next)
+		if next.period > 0 && next.when <= s.now {
+			continue
+		}
+	}
+	return true
 }
 
 // advance moves virtual time to the earliest timer deadline. False: nothing can ever happen.
@@ -845,6 +907,15 @@ func (s *Sched) apply(g *G) bool {
 			break
 		}
 		k := 0
+		if len(ready) > 1 && s.spinFair {
+			// Fairness after a busy spin: Go's select chooses uniformly among ready cases, so a
+			// spinning loop eventually takes the case a timer just made ready. On the default path
+			// the cases are offered in reverse order once, which lets the loop leave.
+			// (No alternative is offered here: continuing to spin past a ready timer case for a whole
+			// further clock jump is an unfair schedule that real time excludes.)
+			s.spinFair = false
+			ready = ready[len(ready)-1:]
+		}
 		if len(ready) > 1 {
 			k = s.choice(len(ready), pkSelect, false)
 			if k < 0 {
